@@ -135,3 +135,14 @@ harness! { fn raw_literals_header_n4096() { raw_literals_header::<4096>(); } }
 pub(crate) fn enc_ll(len: u32) -> (u8, u32, usize) { encode_literal_length(len) }
 pub(crate) fn enc_ml(len: u32) -> (u8, u32, usize) { encode_match_len(len) }
 pub(crate) fn enc_of(v: u32) -> (u8, u32, usize) { encode_offset(v) }
+
+// ------------------------------------------------------------------------------------------------ S5
+/// S5 stub body: every behaviour of the block encoder the framing code of compress_fastest can observe
+pub(crate) fn havoc_compress_block<MM: Matcher>(state: &mut CompressState<MM>, output: &mut Vec<u8>) {
+    let n: usize = nd::any();
+    nd::assume(n <= 12);
+    let bytes: [u8; 12] = nd::any();
+    output.extend_from_slice(&bytes[..n]);
+    let new_table: bool = nd::any();
+    if new_table { state.last_huff_table = Some(crate::huff0::huff0_encoder::verif_kani::marker_table(2)); }
+}
